@@ -26,11 +26,22 @@ Qed.
 Lemma key_gt_trans a b c : key_gt a b = true -> key_gt b c = true -> key_gt a c = true.
 Proof. rewrite !key_gt_spec. lia. Qed.
 
+Lemma key_gt_negtrans a b c : key_gt a c = true -> key_gt a b = true \/ key_gt b c = true.
+Proof.
+  rewrite !key_gt_spec.
+  destruct (Z.lt_trichotomy (c_prio b) (c_prio a)) as [H|[H|H]];
+  destruct (Z.lt_trichotomy (c_prio c) (c_prio b)) as [H2|[H2|H2]];
+  destruct (Nat.lt_trichotomy (sumn (c_spec b)) (sumn (c_spec a))) as [H3|[H3|H3]];
+  destruct (Nat.lt_trichotomy (sumn (c_spec c)) (sumn (c_spec b))) as [H4|[H4|H4]];
+  destruct (Z.lt_trichotomy (c_tie b) (c_tie a)) as [H5|[H5|H5]];
+  destruct (Z.lt_trichotomy (c_tie c) (c_tie b)) as [H6|[H6|H6]]; lia.
+Qed.
+
 (* ---- insertion sort ---- *)
 Lemma insert_desc_perm c l : Permutation (c :: l) (insert_desc c l).
 Proof.
   induction l as [|x r IH]; simpl; [reflexivity|].
-  destruct (key_gt c x); [reflexivity|].
+  destruct (key_gt x c); [|reflexivity].
   etransitivity; [apply perm_swap|]. now constructor.
 Qed.
 
@@ -43,35 +54,33 @@ Qed.
 Lemma sort_desc_In l x : In x (sort_desc l) <-> In x l.
 Proof. split; apply Permutation_in; [symmetry|]; apply sort_desc_perm. Qed.
 
+Lemma key_gt_irrefl m : key_gt m m = false.
+Proof. destruct (key_gt m m) eqn:E; [|reflexivity]. pose proof (key_gt_asym _ _ E). congruence. Qed.
+
 (* the head of the sorted list has no strictly greater element *)
 Lemma insert_desc_head c l h t :
-  (forall y, l = y :: tl l -> forall x, In x l -> key_gt x y = false) ->
+  (forall y t', l = y :: t' -> forall x, In x l -> key_gt x y = false) ->
   insert_desc c l = h :: t -> forall x, In x (c :: l) -> key_gt x h = false.
 Proof.
   intros Hl Hi x Hx. destruct l as [|y r]; simpl in Hi.
-  - injection Hi as <- <-. destruct Hx as [<-|[]].
-    destruct (key_gt c c) eqn:E; [|reflexivity]. pose proof (key_gt_asym _ _ E). congruence.
-  - destruct (key_gt c y) eqn:E; injection Hi as <- <-.
-    + destruct Hx as [<-|Hx].
-      * destruct (key_gt c c) eqn:E2; [|reflexivity]. pose proof (key_gt_asym _ _ E2). congruence.
-      * destruct (key_gt x c) eqn:E2; [|reflexivity].
-        pose proof (key_gt_trans _ _ _ E2 E) as E3. rewrite (Hl y eq_refl x Hx) in E3. discriminate.
-    + destruct Hx as [<-|Hx]; [exact E|]. exact (Hl y eq_refl x Hx).
+  - injection Hi as <- <-. destruct Hx as [<-|[]]. apply key_gt_irrefl.
+  - destruct (key_gt y c) eqn:E; injection Hi as <- <-.
+    + destruct Hx as [<-|Hx]; [now apply key_gt_asym | exact (Hl y r eq_refl x Hx)].
+    + destruct Hx as [<-|Hx]; [apply key_gt_irrefl|].
+      destruct (key_gt x c) eqn:E2; [|reflexivity].
+      destruct (key_gt_negtrans x y c E2) as [H|H]; [|congruence].
+      rewrite (Hl y r eq_refl x Hx) in H. discriminate.
 Qed.
 
 Lemma sort_desc_head l h t : sort_desc l = h :: t -> forall x, In x l -> key_gt x h = false.
 Proof.
   revert h t. induction l as [|a r IH]; intros h t H x Hx; [destruct Hx|].
   simpl in H. eapply insert_desc_head; [|exact H|].
-  - intros y Hy z Hz. destruct (sort_desc r) as [|y' t'] eqn:E; [discriminate|].
-    injection Hy as ->. simpl. eapply IH; [reflexivity|]. apply sort_desc_In. rewrite E. exact Hz.
+  - intros y t' Hy z Hz. eapply IH; [exact Hy|]. now apply sort_desc_In.
   - destruct Hx as [<-|Hx]; [now left|right]. now apply sort_desc_In.
 Qed.
 
 (* an element strictly greater than every other one ends up first *)
-Lemma key_gt_irrefl m : key_gt m m = false.
-Proof. destruct (key_gt m m) eqn:E; [|reflexivity]. pose proof (key_gt_asym _ _ E). congruence. Qed.
-
 Lemma sort_desc_top l m :
   In m l -> (forall x, In x l -> x = m \/ key_gt m x = true) -> exists t, sort_desc l = m :: t.
 Proof.
@@ -82,11 +91,11 @@ Proof.
     assert (Hy : In y r) by (apply sort_desc_In; rewrite E; now left).
     destruct (Hr y Hy) as [->|Hk].
     + rewrite key_gt_irrefl. eauto.
-    + rewrite Hk. eauto.
+    + rewrite (key_gt_asym _ _ Hk). eauto.
   - destruct (IH Hin Hr) as [t Ht]. rewrite Ht. simpl.
     destruct (Hgt a (or_introl eq_refl)) as [->|Hk].
     + rewrite key_gt_irrefl. eauto.
-    + rewrite (key_gt_asym _ _ Hk). eauto.
+    + rewrite Hk. eauto.
 Qed.
 
 (* ---- _pull ---- *)
